@@ -10,8 +10,9 @@
 
   File system.  An ordered list of search roots; each root is the finite set of the *files* below
   it, as relative paths (lists of segments).  A directory exists iff some file lies strictly below
-  it (the root directory itself always exists).  Namespace packages, symlinks, directories named
-  `x.py` are not represented.
+  it (the root directory itself always exists).  The listing is the logical view (symbolic links
+  followed, as `is_dir()` / `exists()` do); what links change — the value of `Path.resolve()` — is the
+  last section of this file.  Namespace packages and directories named `x.py` are not represented.
 
   The stdlib classification (`isort.place_module`) and the stdlib finder (`importlib.util.
   find_spec`) are NOT modelled: they enter as the per-case table `Env.stdlib` supplied by the
@@ -189,5 +190,108 @@ def runCalls : Memo → List RelCall → List Dotted
   | m, c :: cs =>
     let (r, m') := deriveAbsM m c.isInit c.base c.target c.level
     r :: runCalls m' cs
+
+/-! ### Symbolic links: what `Path.resolve()` is applied to
+
+  The files of a root (`Files`) are the LOGICAL view below the search directory: what `is_dir()` /
+  `exists()` see, both of which follow symbolic links — a package directory that is a link to a
+  directory elsewhere contributes its files under the link's name.  What a link changes is the VALUE
+  of a path once `Path.resolve()` (`os.path.realpath`) has been applied to it.  `find_module_in_path`
+  applies it to the search directory only and appends the module's parts as spelled:
+
+      install_location = python_path.resolve()
+      for part in module_parts: install_location /= part
+
+  so the origin of a located module is `resolve(search dir) ++ <path as spelled below it>` whatever
+  links lie below the search directory.  `Import.origin` (models/symbol/_symbols.py) resolves once
+  more, the whole path: `Path(self.module_spec.origin).resolve()`.
+
+  `.resolve()` enters the model as a parameter `rv : Path → Path` on absolute paths (lists of
+  segments); the theorems hold for every such function.  The driver instantiates it with
+  `resolveLinks` (a table of links), which the harness validates against `os.path.realpath`. -/
+
+/-- where `find_module_in_path` applies `.resolve()` -/
+inductive ResolveSite where
+  /-- `python_path.resolve()`, then `/= part` (the pinned code; Tie A `tieA_resolve_site`) -/
+  | searchDir
+  /-- `(python_path / parts…).resolve()`: the located file itself -/
+  | location
+  deriving Repr, DecidableEq
+
+/-- the pinned code -/
+def resolveSite : ResolveSite := .searchDir
+
+/-- the value `find_module_in_path` returns for the match `rel` below the search directory `dir`
+(both as spelled) -/
+def originAbs (rv : Path → Path) (site : ResolveSite) (dir rel : Path) : Path :=
+  match site with
+  | .searchDir => rv dir ++ rel
+  | .location => rv (dir ++ rel)
+
+/-- `find_module_in_path(python_path, modulename)` as the absolute path it returns -/
+def findModuleInPathAbs (rv : Path → Path) (site : ResolveSite) (dir : Path) (files : Files)
+    (name : Dotted) : Option Path :=
+  (findModuleInPath files name).map (originAbs rv site dir)
+
+/-- the search directories as spelled (`iter_python_path_dirs`, same order as `Env.fs`), the
+resolver, and where it is applied -/
+structure Mounts where
+  rv   : Path → Path
+  site : ResolveSite
+  dirs : List Path
+
+/-- `ModuleSpec.origin` of a spec located on the search path, as an absolute path -/
+def specAbs (M : Mounts) (s : ModSpec) : Option Path :=
+  match s.origin with
+  | some (.file i rel) => (M.dirs[i]?).map fun d => originAbs M.rv M.site d rel
+  | _ => none
+
+/-- `Import.origin`: `Path(self.module_spec.origin).resolve()` -/
+def importOriginAbs (M : Mounts) (s : ModSpec) : Option Path := (specAbs M s).map M.rv
+
+/-- `seg.split(".")` of one path segment -/
+def splitSeg : Str → List Str
+  | [] => [[]]
+  | c :: r =>
+    if c = '.' then [] :: splitSeg r
+    else
+      match splitSeg r with
+      | [] => [[c]]
+      | h :: t => (c :: h) :: t
+
+/-- `str(p).replace("/", ".").split(".")` for the absolute POSIX path `/seg₁/…/segₙ` (no empty
+segment, `n ≥ 1`) -/
+def pathComps (p : Path) : List Str := [] :: p.flatMap splitSeg
+
+/-- `derive_module_name_from_path(p)` for an absolute path: the module name a file gets that is
+entered as `enter_file(p)` -/
+def nameOfAbs (env : Env) (p : Path) : Option Dotted := deriveModuleNameFromPath env (pathComps p)
+
+/-- the module name under which the file of the followed import `name` is analysed
+(`parse_and_analyse_imports`: `with enter_file(spec.origin)`) -/
+def followBase (env : Env) (M : Mounts) (name : Dotted) : Option Dotted :=
+  (findModuleSpecFast env name).bind fun s => (specAbs M s).bind (nameOfAbs env)
+
+/-- … and of the star-imported module `name` (`Context.expand_starred_imports`:
+`with enter_file(starred.origin)`) -/
+def starBase (env : Env) (M : Mounts) (name : Dotted) : Option Dotted :=
+  (findModuleSpecFast env name).bind fun s => (importOriginAbs M s).bind (nameOfAbs env)
+
+/-- a table of symbolic links: absolute path of the link ↦ absolute path it points to -/
+abbrev Links := Dict Path Path
+
+/-- one step of `os.path.realpath`'s left-to-right scan: the shortest prefix that is a link is
+replaced by its target -/
+def stepLink (links : Links) (p : Path) : Option Path :=
+  (List.range (p.length + 1)).findSome? fun k => (Dict.get? links (p.take k)).map (· ++ p.drop k)
+
+/-- `os.path.realpath` for a link table (no loops within the fuel; the harness checks every value
+used against the real function) -/
+def resolveLinks (links : Links) : Nat → Path → Path
+  | 0, p => p
+  | n + 1, p =>
+    match stepLink links p with
+    | none => p
+    | some q => resolveLinks links n q
 
 end Rattr.Locator
